@@ -86,8 +86,8 @@ CHECKS['C04'] = dict(
    technique='Lean 4 proof (parser/printer round trip per grammar rule, lexer round trip) + differential correspondence through the real compiler',
    design='C04')
 CHECKS['C17'] = dict(
-   text='Theorems (Props/C17.lean): the grammar mal.g4 is stated rule by rule as derivation relations carrying the visitor values (Spec/MalGrammar.lean); the model parser is sound and complete for it (parse_sound, parse_exact, reject_iff): whatever it returns is the meaning of a grammatical prefix in the sense of the start rule as written, and it rejects exactly when no such prefix exists; every function consumes a prefix; an error in an included file is an error of the whole. Tied to the real compiler by token-level mutants (deletion, insertion, duplication, truncation, swapped brackets, reserved words, stray characters) of valid programs in root and included files with three-way agreement: Lean parser rejects <=> ANTLR with counting listeners reports an error => MalCompiler.compile raises.',
-   note='the classifier of "does not conform" is the unmodified generated ANTLR parser with counting listeners, as the property states; the start rule has no EOF: trailing text after the last declaration is not an error of the grammar (trailing_tokens_are_ignored)',
+   text='Theorems (Props/C17.lean): the grammar mal.g4 is stated rule by rule as derivation relations carrying the visitor values (Spec/MalGrammar.lean); the model of the compiler front end (parser.mal() followed by the EOF check of e0054c2; a text that does not lex is rejected) is sound and complete for it (parse_sound, parse_exact, reject_iff, source_exact): a specification is returned iff the WHOLE token list of a text that lexes is derivable by declaration*; trailing input is rejected whatever parsed in front of it (trailing_input_rejected; prefix_variant_accepts_trailing / prefix_variant_accepts_lex_error / fix_only_rejects document the repaired defect: the start rule has no EOF and the compiler used to return the prefix); the on-demand token stream ends in a specification exactly when the model returns one (front_end_on_demand, front_end_accepts_iff); the generated prefix parser is characterised too (parse_rest_sound, parse_rest_exact); every function consumes a prefix; an error or trailing input in an included file is an error of the whole. Tied to the real compiler by token-level mutants (deletion, insertion, duplication, truncation, swapped brackets, reserved words, stray characters), by a trailing-input family (surplus }, misspelt top-level keyword + block, arbitrary legal tokens, lexical error behind a stop token; in root and included files) and unmutated controls, with three-way agreement in both directions: Lean classifier rejects <=> MalCompiler.compile raises <=> ANTLR with counting listeners reports an error or leaves tokens unconsumed.',
+   note='a file conforms to the grammar iff the unmodified generated ANTLR parser with counting listeners reports no error AND the start rule consumed the whole token stream; which of the three errors (syntax error / extraneous input / token recognition error) the real front end reports for a text with a lexical error is not claimed, only that it is an error',
    technique='Lean 4 proof (soundness and completeness of the recogniser w.r.t. the grammar relation) + differential correspondence on mutants',
    design='C17')
 CHECKS['C18'] = dict(
